@@ -132,7 +132,7 @@ plan("C02", "exploration",
 plan("C10", "exploration",
      "One-shot: inputs biased to incompressible/empty (0..70, 65530..65540, 131065..131075, up to 300 KiB) x level x wrapper x flush x avail_out around 0 / compressed size / bound, every value 0..bound+16 "
      "for small inputs; streaming: tiny output buffer sequences with end_of_stream; invalid parameters. Output chunks end at guard pages. Non-trivial: avail_out within 16 of the bound or compressed size, or a buffer < 8 bytes.",
-     lambda tier: [S("C10", 36000), S("C10", 3000, cfg="hist8k"), S("C10", 2000, cfg="longhuff")] if tier == "quick" else [S("C10", 500000), S("C10", 50000, cfg="hist8k"), S("C10", 30000, cfg="longhuff")],
+     lambda tier: [S("C10", 24000), S("C10", 3000, cfg="hist8k"), S("C10", 1500, cfg="longhuff")] if tier == "quick" else [S("C10", 500000), S("C10", 50000, cfg="hist8k"), S("C10", 30000, cfg="longhuff")],
      assumptions=["bound = len + 5*max(1,ceil(len/65535)) + (10,8) gzip / (0,8) gzip-no-hdr / (2,4) zlib / (0,4) zlib-no-hdr / 0 raw as stated by the property",
                   "either ISAL_INVALID_LEVEL or ISAL_INVALID_LEVEL_BUF is accepted for a missing/undersized level buffer"])
 
@@ -162,7 +162,7 @@ plan("C06", "fault_enumeration",
      "deflate generator and wrapper-level single faults with padding (documented error class); random bytes and multiply damaged streams with small output limits; x APIs x chunk schedules x decode kernels. "
      "Oracle: guard pages/canaries, documented codes, provable-livelock rule, lenient RFC 1951 reference (no false success), zlib agreement on strictly valid raw streams. "
      "Non-trivial: mutant got past the wrapper and produced output.",
-     lambda tier: [S("C06", 5000), F("C06", 1600)] if tier == "quick" else [S("C06", 80000), F("C06", 60000)],
+     lambda tier: [S("C06", 5000), F("C06", 1000)] if tier == "quick" else [S("C06", 80000), F("C06", 60000)],
      assumptions=["error-class equality is asserted only for constructed single faults followed by >= 16 padding bytes", "incomplete code sets are a grey zone: neither acceptance nor rejection is an alarm",
                   "rejection of something the lenient reference accepts is never an alarm"])
 
